@@ -192,9 +192,9 @@ fn split_realnum(s: &str) -> (&str, &str) {
     )
 }
 
-// Helper: validate real number string (digits and at most one dot)
+// Helper: validate real number string (digits and at most one dot, at least one digit)
 fn validate_realnum(s: &str) -> bool {
-    if s.is_empty() {
+    if !s.bytes().any(|c| c.is_ascii_digit()) {
         return false;
     }
 
